@@ -104,6 +104,8 @@ def doublestar(t: str) -> bool:
     pre: len(t) <= N and _tok(t)
     post: _
     """
+    if t in conf.extension_alias:
+        return True      # reading rule: an alias is only expanded as LAST segment (C07); 'alias/**' with zero levels is outside the relation
     whole = _U(PRE + t + "/**" + SUF)
     if whole is None:
         return True
